@@ -40,10 +40,11 @@ def decompile(routine_infos, routine_ops, named_coroutines):
     return d.convert()
 
 
-def decompile_ssbs(routine_infos, routine_ops, named_coroutines):
+def decompile_ssbs(routine_infos, routine_ops, named_coroutines, prefix=None):
     from explorerscript.ssb_script.ssb_converting.ssb_decompiler import SsbScriptSsbDecompiler
 
-    return SsbScriptSsbDecompiler(routine_infos, routine_ops, named_coroutines).convert()
+    d = SsbScriptSsbDecompiler(routine_infos, routine_ops, named_coroutines)
+    return d.convert() if prefix is None else d.convert(prefix=prefix)
 
 
 def compile_ssbs(text: str):
